@@ -35,6 +35,7 @@ type c10Person struct {
 	BY, BM, BD           int
 	DY                   int
 	Place, Occu          string
+	UID                  string // value of a _UID line ("" = none)
 }
 
 type c10Family struct {
@@ -192,6 +193,9 @@ func c10PersonFacts(p c10Person, marker string, detail uint32) []*c10Fact {
 	}
 	if p.Occu != "" {
 		fs = append(fs, c10F("OCCU", p.Occu, pick(25, []*c10Fact{c10F("DATE", strconv.Itoa(p.BY+25))})...))
+	}
+	if p.UID != "" {
+		fs = append(fs, c10F("_UID", p.UID))
 	}
 	fs = append(fs, c10F("_MARK", marker))
 	return fs
@@ -530,6 +534,9 @@ func c10Merge(l, r *gedcom.Document, via string, minSim float64) (out *gedcom.Do
 		return doc, nil
 	}
 	options := gedcom.NewIndividualNodesCompareOptions()
+	if minSim < 0 { // "always trust the pointer"
+		options.SimilarityOptions.PreferPointerAbove = 0
+	}
 	if minSim > 0 {
 		options.SimilarityOptions.MinimumWeightedSimilarity = minSim
 		options.SimilarityOptions.MinimumSimilarity = minSim
@@ -541,17 +548,31 @@ func c10Merge(l, r *gedcom.Document, via string, minSim float64) (out *gedcom.Do
 const c10KnownPointers = "merge-does-not-rewrite-pointers"
 
 func c10Run(c *Ctx, l, r *c10ADoc, shape, via string, minSim float64) {
-	input := map[string]interface{}{"left": l.Text, "right": r.Text, "shape": shape, "via": via, "min_similarity": minSim}
 	ld, err1 := gedcom.NewDocumentFromString(l.Text)
 	rd, err2 := gedcom.NewDocumentFromString(r.Text)
 	if err1 != nil || err2 != nil {
-		c.Oracle("", "a generated document does not decode", input, fmt.Sprint(err1, err2), "decodes")
+		c.Oracle("", "a generated document does not decode", map[string]interface{}{"left": l.Text, "right": r.Text, "shape": shape},
+			fmt.Sprint(err1, err2), "decodes")
 		return
 	}
+	c10RunDocs(c, ld, rd, l, r, shape, via, minSim, "")
+}
+
+// c10RunDocs merges two documents that may have been prepared through the API (history = how) and
+// runs every oracle and both correspondences on that one merge. l and r describe the inputs as
+// they are at the time of the call. Returns the merged document (nil when the merge failed).
+func c10RunDocs(c *Ctx, ld, rd *gedcom.Document, l, r *c10ADoc, shape, via string, minSim float64, history string) *gedcom.Document {
+	input := map[string]interface{}{"left": l.Text, "right": r.Text, "shape": shape, "via": via, "min_similarity": minSim}
+	if history != "" {
+		input["history"] = history
+	}
+	// the inputs as forests, before the merge (unmatched individuals are passed through by
+	// reference and a later step of a chain may edit them)
+	lForest, rForest := encForest(abstractNodes(ld.Nodes())), encForest(abstractNodes(rd.Nodes()))
 	out, err := c10Merge(ld, rd, via, minSim)
 	if err != nil {
 		c.Oracle("", "MergeDocumentsAndIndividuals fails on two well-formed documents", input, err.Error(), "a merged document")
-		return
+		return nil
 	}
 	c.Eval()
 	c.Count("shape=" + shape)
@@ -561,7 +582,7 @@ func c10Run(c *Ctx, l, r *c10ADoc, shape, via string, minSim float64) {
 	re, err := gedcom.NewDocumentFromString(text)
 	if err != nil {
 		c.Oracle("", "the merged document does not decode again", input, err.Error(), "decodes")
-		return
+		return out
 	}
 	if re.String() != text {
 		c.Oracle("", "the merged document changes when it is decoded and encoded again", input, re.String(), text)
@@ -570,30 +591,44 @@ func c10Run(c *Ctx, l, r *c10ADoc, shape, via string, minSim float64) {
 
 	// the matching, read off the markers
 	lIdx, rIdx := map[string]int{}, map[string]int{}
+	// an input individual may carry several markers (it is itself the product of an earlier merge)
 	for i, a := range l.Indis {
-		lIdx[a.Marker] = i
+		for _, mk := range strings.Fields(a.Marker) {
+			lIdx[mk] = i
+		}
 	}
 	for i, a := range r.Indis {
-		rIdx[a.Marker] = i
+		for _, mk := range strings.Fields(a.Marker) {
+			rIdx[mk] = i
+		}
 	}
 	seen := map[string]int{}
+	inL, inR := map[int]map[int]bool{}, map[int]map[int]bool{} // input individual -> output individuals holding it
 	type match struct{ L, R int }
 	var ms []match
 	var acct []string
-	for _, oi := range o.Indis {
+	for k, oi := range o.Indis {
 		m := match{-1, -1}
 		for _, mk := range strings.Fields(oi.Marker) {
 			seen[mk]++
 			if i, ok := lIdx[mk]; ok {
-				if m.L >= 0 {
+				if m.L >= 0 && m.L != i {
 					acct = append(acct, "output individual "+oi.Ptr+" holds two left individuals")
 				}
 				m.L = i
+				if inL[i] == nil {
+					inL[i] = map[int]bool{}
+				}
+				inL[i][k] = true
 			} else if i, ok := rIdx[mk]; ok {
-				if m.R >= 0 {
+				if m.R >= 0 && m.R != i {
 					acct = append(acct, "output individual "+oi.Ptr+" holds two right individuals")
 				}
 				m.R = i
+				if inR[i] == nil {
+					inR[i] = map[int]bool{}
+				}
+				inR[i][k] = true
 			} else {
 				acct = append(acct, "unknown marker "+mk)
 			}
@@ -604,14 +639,14 @@ func c10Run(c *Ctx, l, r *c10ADoc, shape, via string, minSim float64) {
 		ms = append(ms, m)
 	}
 	// (S1) accounting
-	for mk := range lIdx {
-		if seen[mk] != 1 {
-			acct = append(acct, fmt.Sprintf("left individual %s is in %d output individuals", mk, seen[mk]))
+	for mk, i := range lIdx {
+		if seen[mk] != 1 || len(inL[i]) != 1 {
+			acct = append(acct, fmt.Sprintf("left individual %s (@%s@) is represented by %d output individuals", mk, l.Indis[i].Ptr, len(inL[i])))
 		}
 	}
-	for mk := range rIdx {
-		if seen[mk] != 1 {
-			acct = append(acct, fmt.Sprintf("right individual %s is in %d output individuals", mk, seen[mk]))
+	for mk, i := range rIdx {
+		if seen[mk] != 1 || len(inR[i]) != 1 {
+			acct = append(acct, fmt.Sprintf("right individual %s (@%s@) is represented by %d output individuals", mk, r.Indis[i].Ptr, len(inR[i])))
 		}
 	}
 	// a merged pair must be the same real person or at least plausible: the property does not
@@ -619,7 +654,7 @@ func c10Run(c *Ctx, l, r *c10ADoc, shape, via string, minSim float64) {
 	if len(acct) > 0 {
 		sort.Strings(acct)
 		c.Oracle("", "an individual is dropped, duplicated or merged twice", input, strings.Join(acct, "; "), "every individual of either input in exactly one output individual")
-		return
+		return out
 	}
 	// (S2) facts of both
 	var lost []string
@@ -630,6 +665,22 @@ func c10Run(c *Ctx, l, r *c10ADoc, shape, via string, minSim float64) {
 			have[p] = true
 			// a node without a value is represented by any node on the same tag path
 			have[p[:strings.Index(p, " ")+1]] = true
+		}
+		// BIRT / DEAT / BURI / BAPM nodes are Equal whatever their value (`1 DEAT Y` = `1 DEAT`) and the
+		// merge keeps the left node: the value of the right node is dropped by design, the event itself
+		// (and everything below it) must still be there
+		for _, vital := range []string{"BIRT ", "DEAT ", "BURI ", "BAPM "} {
+			if have[vital] {
+				for _, side := range [][]c10AIndi{l.Indis, r.Indis} {
+					for _, a := range side {
+						for _, p := range a.Facts {
+							if strings.HasPrefix(p, vital) {
+								have[p] = true
+							}
+						}
+					}
+				}
+			}
 		}
 		m := ms[k]
 		if m.L >= 0 && m.R >= 0 {
@@ -690,13 +741,35 @@ func c10Run(c *Ctx, l, r *c10ADoc, shape, via string, minSim float64) {
 			bad[p] = true
 		}
 	}
-	markerOf := func(side *c10ADoc, ptr string) string {
+	// the markers of the individual a pointer names in an input; ok = it names exactly one record
+	markerOf := func(side *c10ADoc, ptr string) (markers []string, ok bool) {
+		n := 0
 		for _, a := range side.Indis {
 			if a.Ptr == ptr {
-				return a.Marker
+				markers = strings.Fields(a.Marker)
+				n++
 			}
 		}
-		return ""
+		for _, f := range side.Fams {
+			if f.Ptr == ptr {
+				n++
+			}
+		}
+		return markers, n == 1 && len(markers) > 0
+	}
+	famResolvesIn := func(side *c10ADoc, ptr string) bool {
+		n := 0
+		for _, f := range side.Fams {
+			if f.Ptr == ptr {
+				n++
+			}
+		}
+		for _, a := range side.Indis {
+			if a.Ptr == ptr {
+				n++
+			}
+		}
+		return n == 1
 	}
 	sideHasFamRef := func(side *c10ADoc, fam string, rf [2]string) bool {
 		for _, f := range side.Fams {
@@ -728,18 +801,32 @@ func c10Run(c *Ctx, l, r *c10ADoc, shape, via string, minSim float64) {
 	}
 	for _, of := range o.Fams {
 		for _, rf := range of.Refs {
+			// only references that resolved in the input they come from have to resolve in the output
+			// (an input that is itself a merge result may already carry dangling references)
 			var want []string
+			required := false
 			if sideHasFamRef(l, of.Ptr, rf) {
-				want = append(want, markerOf(l, rf[1]))
+				if mk, ok := markerOf(l, rf[1]); ok {
+					want = append(want, mk...)
+					required = true
+				}
 			}
 			if sideHasFamRef(r, of.Ptr, rf) {
-				want = append(want, markerOf(r, rf[1]))
+				if mk, ok := markerOf(r, rf[1]); ok {
+					want = append(want, mk...)
+					required = true
+				}
 			}
-			check("family "+of.Ptr, rf, want)
+			if required {
+				check("family "+of.Ptr, rf, want)
+			}
 		}
 	}
 	for _, oi := range o.Indis {
 		for _, rf := range oi.Refs {
+			if !famResolvesIn(l, rf[1]) && !famResolvesIn(r, rf[1]) {
+				continue
+			}
 			if famByPtr[rf[1]] != 1 || len(outByPtr[rf[1]]) > 0 {
 				msg := fmt.Sprintf("individual %s: %s @%s@ names %d family record(s)", oi.Ptr, rf[0], rf[1], famByPtr[rf[1]])
 				if bad[rf[1]] {
@@ -842,19 +929,20 @@ func c10Run(c *Ctx, l, r *c10ADoc, shape, via string, minSim float64) {
 	// fresh decodes: the merge passes unmatched individuals through by reference, the inputs must
 	// be described as they were
 	lp, rp := posOf(ld), posOf(rd)
+	first := func(marker string) string { return strings.Fields(marker + " -")[0] }
 	var req2 strings.Builder
 	fmt.Fprintf(&req2, "mergedocs %d", len(ms))
 	for _, m := range ms {
 		switch {
 		case m.L >= 0 && m.R >= 0:
-			fmt.Fprintf(&req2, " B %d %d", lp[l.Indis[m.L].Marker], rp[r.Indis[m.R].Marker])
+			fmt.Fprintf(&req2, " B %d %d", lp[first(l.Indis[m.L].Marker)], rp[first(r.Indis[m.R].Marker)])
 		case m.L >= 0:
-			fmt.Fprintf(&req2, " L %d", lp[l.Indis[m.L].Marker])
+			fmt.Fprintf(&req2, " L %d", lp[first(l.Indis[m.L].Marker)])
 		default:
-			fmt.Fprintf(&req2, " R %d", rp[r.Indis[m.R].Marker])
+			fmt.Fprintf(&req2, " R %d", rp[first(r.Indis[m.R].Marker)])
 		}
 	}
-	req2.WriteString(" " + encForest(abstractNodes(ld.Nodes())) + " " + encForest(abstractNodes(rd.Nodes())))
+	req2.WriteString(" " + lForest + " " + rForest)
 	c.Tie(req2.String(), "ok legal="+bit(re.String() == text)+" inputs=1 "+encForest(abstractNodes(out.Nodes())))
 
 	switch {
@@ -878,6 +966,7 @@ func c10Run(c *Ctx, l, r *c10ADoc, shape, via string, minSim float64) {
 	c.Nontrivial(fmt.Sprintf("%s|%d|%d|%v", shape, nMerged, len(o.Indis)-nMerged, len(brokenKnown) > 0))
 	c.Sample(map[string]interface{}{"shape": shape, "via": via, "left_people": len(l.Indis), "right_people": len(r.Indis),
 		"merged": nMerged, "output_people": len(o.Indis), "output_families": len(o.Fams), "broken_references": len(brokenKnown)})
+	return out
 }
 
 func c10HasRef(refs [][2]string, rf [2]string) bool {
@@ -891,7 +980,7 @@ func c10HasRef(refs [][2]string, rf [2]string) bool {
 
 func init() {
 	runners["C10"] = func(c *Ctx) {
-		c.Rule = "pairs of referentially closed family-graph documents (0..25 people each): base + edited copy with the same / renumbered / reshuffled pointers, dropped and added people, changed facts, shuffled records; disjoint worlds with disjoint or clashing pointers; empty documents; default, strict (0.95) and lenient (0.4) thresholds; library call and query function; distinct = (shape, merged, unmerged, any broken reference)"
+		c.Rule = "pairs of referentially closed family-graph documents (0..25 people each): base + edited copy with the same / renumbered / reshuffled pointers, dropped and added people, changed facts, shuffled records; disjoint worlds with disjoint or clashing pointers; empty documents; inputs prepared through the API (DeleteNode / SetNodes / AddIndividual / AddFamily / AddChild) and chains of 2-3 merges whose results are edited and merged again; renumbered copies with shared _UIDs, swapped pointers and namesakes; unchanged copies of fully documented families with only non-vital facts edited (weighted similarity 1.0); default, strict (0.95), lenient (0.4) and always-trust-the-pointer (PreferPointerAbove 0) thresholds; library call and query function; distinct = (shape, merged, unmerged, any broken reference)"
 		c.Notes = append(c.Notes,
 			"the matching is read off unique marker lines in the output; who is matched with whom is C11's property, C10 checks that everyone is accounted for whatever the matching",
 			"ConcurrentJobs is left at its default (the data races of the parallel comparison are C11's finding)")
@@ -920,6 +1009,9 @@ func init() {
 				minSim = 0.4
 			}
 			c10Run(c, l, r, shape, via, minSim)
+			if k%5 == 0 {
+				c10Wave2(c, k/5)
+			}
 		}
 	}
 }
